@@ -293,4 +293,19 @@ Definition glue_badlocal (k : string) (a o : list value) : option verdict :=
     Some (functional [VZ 1; VZ 0] o (match o with VZ e :: _ => negb (e =? 0) | _ => false end))
   else None.
 
-Definition run_case (k : string) (a o : list value) : verdict := first_some [glue_C05; glue_badlocal] k a o.
+(* "client.ctxdone": calls whose context is already cancelled (variant 0), whose deadline is in the past (1) or
+   passes between the tries of an interleaved-mode call (3); args = scion variant, outs = reported(nil error)
+   requests-seen-by-the-peer measurements-evaluated offset.  Which of the racing events wins is Go's choice
+   (relational); with the deadline in the past nothing can be sent: an error, no request.  Oracle: a reported
+   measurement needs an accepted datagram (and a request the peer saw). *)
+Definition glue_ctxdone (k : string) (a o : list value) : option verdict :=
+  if is k "client.ctxdone" then
+    match a, o with
+    | [VZ _; VZ v], [VZ rep; VZ nreq; VZ nf; VZ _] =>
+        Some (relational (if v =? 1 then (rep =? 0) && (nreq =? 0) && (nf =? 0) else true)
+                         (C05_call_needs_datagram (negb (rep =? 0)) nf && ((rep =? 0) || (1 <=? nreq))))
+    | _, _ => Some (relational false true)
+    end
+  else None.
+
+Definition run_case (k : string) (a o : list value) : verdict := first_some [glue_C05; glue_badlocal; glue_ctxdone] k a o.
